@@ -207,6 +207,7 @@ type bodyEnv struct {
 	stepAt map[string]int
 	emits  []string
 	obj    vsched.Obj
+	dieBefore string // interrupted-build child: the process dies just before emitting this file
 }
 
 func (b *bodyEnv) builtins() starlark.StringDict {
@@ -228,6 +229,9 @@ func (b *bodyEnv) builtins() starlark.StringDict {
 		}),
 		"emit": starlark.NewBuiltin("emit", func(t *starlark.Thread, fn *starlark.Builtin, args starlark.Tuple, kw []starlark.Tuple) (starlark.Value, error) {
 			p, text := str(args[0]), str(args[1])
+			if b.dieBefore != "" && p == b.dieBefore {
+				os.Exit(137)
+			}
 			vsched.Effect(&b.obj, "emit "+p)
 			if vsched.Aborted() {
 				return nil, fmt.Errorf("process died")
@@ -333,6 +337,7 @@ type buildOpts struct {
 	GC          bool
 	PreferIndex bool
 	SnapLoad    bool
+	Interrupt   string // the build runs in a child process that dies just before emitting this file
 }
 
 // build materialises nothing: it loads the project found at root and runs one operation.
